@@ -183,12 +183,19 @@ func (s *stream) listen(args models.ListenerArgs) {
 	}
 }
 
-func (s *stream) reopenStream(vbID uint16) {
+func (s *stream) reopenStream(vbID uint16, observers *wrapper.ConcurrentSwissMap[uint16, couchbase.Observer]) {
 	retry := 5
 
 	verifHook("reopen.start")
 
 	for {
+		if observers == nil || s.observers != observers {
+			// the stream has been closed or reopened since this vBucket ended (rebalance, shutdown):
+			// the new open streams the vBucket itself, a second request would only be refused
+			logger.Log.Info("skip re-open stream, stream closed or reopened meanwhile, vbID: %d", vbID)
+			return
+		}
+
 		err := s.openStream(vbID)
 		if err == nil {
 			logger.Log.Info("re-open stream, vbID: %d", vbID)
@@ -230,7 +237,7 @@ func (s *stream) listenEnd(endContext models.DcpStreamEndContext) {
 			errors.Is(endContext.Err, gocbcore.ErrDCPStreamStateChanged) ||
 			errors.Is(endContext.Err, gocbcore.ErrDCPStreamTooSlow) ||
 			errors.Is(endContext.Err, gocbcore.ErrDCPStreamDisconnected)) {
-		go s.reopenStream(endContext.Event.VbID)
+		go s.reopenStream(endContext.Event.VbID, s.observers)
 	} else {
 		activeStreams := s.activeStreams.Add(-1)
 		if activeStreams == 0 && !s.streamFinishedWithCloseCh {
@@ -374,7 +381,13 @@ func (s *stream) openStream(vbID uint16) error {
 		logger.Log.Error("error while opening stream, err: %v", err)
 		return err
 	}
-	observer, _ := s.observers.Load(vbID)
+	observers := s.observers
+	if observers == nil {
+		return fmt.Errorf("stream is closed, vbID: %d", vbID)
+	}
+
+	observer, _ := observers.Load(vbID)
+
 	return s.client.OpenStream(vbID, s.collectionIDs, offset, observer)
 }
 
